@@ -19,7 +19,8 @@ EXPLANATION = (
     "_get_all_data_files is dominated by the unset-snapshot test and missing manifest (list) branches raise; (R4) on the "
     "verification branch the Parquet parse is dominated by the checksum test, whose failure edge raises CorruptDataError, "
     "and the bytes parsed are the bytes verified (same reaching definition); verification defaults to on; (R5) field-flow "
-    "of `checksum` over the four hops writer -> append_data -> manifest writer -> manifest reader.")
+    "of `checksum` over the four hops writer -> append_data -> manifest writer -> manifest reader."
+    ' Also: census - every DataFile built in the package carries a checksum, carried-over files are not re-built field by field, every reaching definition of the recorded checksum is a computed digest and a failing read-back fails the append.')
 NOT_DECIDED = ("damage classes that still parse (Avro cut at a block boundary, a sibling file that is valid JSON); "
                "pyarrow's behaviour on corrupt pages when verification is off")
 
